@@ -481,11 +481,21 @@ def flag_is_one(fn, FE):
     or the expression it is assigned"""
     from .. import cbool
     sts = [(node, rhs) for path, node, rhs, kind in clib.stores(fn) if path == FE and rhs is not None]
-    if len(sts) == 1 and sts[0][1].strip(casts=True).intval() is None:
-        f = flag_expression(sts[0][1])
-        if f is None:
-            raise AnalysisError("%s: the expression assigned to `%s` is not a boolean expression this rule reads" % (fn.name, FE))
-        return ("and", cbool.path_condition(sts[0][0], fn), f), sts[0][0]
+    exprs = [(node, rhs) for node, rhs in sts if rhs.strip(casts=True).intval() is None]
+    if exprs:
+        # (an over-approximation of) the states in which the flag is 1: some store of a true value was executed
+        parts = []
+        for node, rhs in sts:
+            iv = rhs.strip(casts=True).intval()
+            if iv is not None:
+                if iv != 0:
+                    parts.append(cbool.path_condition(node, fn))
+                continue
+            f = flag_expression(rhs)
+            if f is None:
+                raise AnalysisError("%s: the expression assigned to `%s` is not a boolean expression this rule reads" % (fn.name, FE))
+            parts.append(("and", cbool.path_condition(node, fn), f))
+        return cbool.disj(parts), exprs[0][0]
     ones = [node for node, rhs in sts if rhs.strip(casts=True).intval() == 1]
     if not ones:
         raise AnalysisError("%s: assignment %s = 1 not found" % (fn.name, FE))
@@ -511,8 +521,8 @@ def exists_flag(fn, g=None):
                 sts = [rhs for path, node, rhs, kind in clib.stores(fn) if path == v]
                 if sts and all(kind_ok.strip(casts=True).intval() is not None for kind_ok in sts):
                     cands.add(v)
-                elif len(sts) == 1 and flag_expression(sts[0]) is not None:
-                    cands.add(v)        # `flag = (a && !strcmp(..) && !strcmp(..))`, directly or through a one-line helper
+                elif sts and all(x_.strip(casts=True).intval() is not None or flag_expression(x_) is not None for x_ in sts):
+                    cands.add(v)        # `flag = (a && !strcmp(..) && !strcmp(..))`, directly or through a one-line helper; `flag = 0;` before it
     if len(cands) != 1:
         raise AnalysisError("%s: the flag that decides between the open file and a new one was not found exactly once (%s)" % (fn.name, sorted(cands)))
     return cands.pop()
@@ -550,7 +560,7 @@ def r4_new_file_on_name_change(repo=None):
         from .. import cbool
         f1, at = expr_form
         calls = {}
-        for c in at.calls(("strcmp", "strncmp")):
+        for c in [c_ for path_, nd_, rhs_, k_ in clib.stores(fn) if path_ == FE and rhs_ is not None for c_ in rhs_.calls(("strcmp", "strncmp"))]:
             a = {alias_path(fn, c.args[0]), alias_path(fn, c.args[1])}
             if a == {OBJ + "->sub_directory", d_subdir}:
                 calls["sub_directory"] = c
@@ -833,6 +843,38 @@ def r8_remembered_subdir_is_current(repo=None, rid="C04.R8"):
                 c = e.children[0].strip(casts=True)
                 if c.kind == "CallExpr" and c.callee == "strcmp" and {c.args[0].path(), c.args[1].path()} == {field, sub_param}:
                     eq_conds.append((n.id, "T" if (e.opcode == "==") != neg else "F"))
+    # a named condition: `flag = (field == NULL || check(..) || strcmp(field, subdir));  if (flag && helper(..))` - the edge on
+    # which the flag's value implies strcmp(..) == 0 (truth table of the expression it was assigned, single definition)
+    import itertools
+    from .. import cbool
+    for n in g.nodes:
+        if n.kind != "cond" or n.ast is None or n.id in dict(eq_conds):
+            continue
+        e = n.ast.strip(casts=True)
+        neg = False
+        while e.kind == "UnaryOperator" and e.opcode == "!":
+            neg = not neg
+            e = e.children[0].strip(casts=True)
+        v = e.path() if e.kind == "DeclRefExpr" else None
+        if not v or v in params:
+            continue
+        ds = [rhs for p_, nd_, rhs, k_ in clib.stores(cf) if p_ == v and rhs is not None]
+        ds += [d.children[-1] for d in cf.find("VarDecl") if d.name == v and d.children]
+        if len(ds) != 1:
+            continue
+        cmps = [c for c in ds[0].calls(("strcmp",)) if {c.args[0].path(), c.args[1].path()} == {field, sub_param}]
+        if len(cmps) != 1:
+            continue
+        f = cbool.truth(ds[0])
+        an = cbool._text(cmps[0].strip(casts=True), {})
+        names = sorted(cbool.atoms(f))
+        if an not in names or len(names) > 12:
+            continue
+        for t in (True, False):
+            rows = [dict(zip(names, bits)) for bits in itertools.product((False, True), repeat=len(names))]
+            rows = [val for val in rows if cbool.ev(f, val) == t]
+            if rows and all(not val[an] for val in rows):
+                eq_conds.append((n.id, "T" if (t != neg) else "F"))
     eq = dict(eq_conds)
 
     def filt(a, b, lab):
